@@ -194,10 +194,12 @@ class SimT2(object):
             return b"\x0A"
         if self.pending:
             self.pending = False
-            if len(d) == 4 and d[0] * 256 < npages:
-                self.sector = d[0]
-                return None                   # passive acknowledge
-            return b"\x00"
+            if len(d) == 4:
+                if d[0] * 256 < npages:
+                    self.sector = d[0]
+                    return None               # passive acknowledge
+                return b"\x00"
+            # packet two never arrived: the tag has left the wait state
         page = self.sector * 256 + (d[1] if len(d) > 1 else 0)
         if c == 0x30:
             if page >= npages:
